@@ -44,6 +44,22 @@ expressions
   * pure functions, strings (`str` = `List Char`): `s[i]` for a provably non-negative `i` (→ `Py.getItem`, a one-character string,
     usable only through methods the spec declares for it, e.g. `isdigit`), `len(s)`, `==`, f-strings whose interpolated values are
     all `str` without conversion / format spec (→ `++`; literal parts printable ASCII)
+  * pure functions, control (W20): `continue`; `for v in reversed(xs)` (→ `xs.reverse`; the subset has no list mutation);
+    an assignment expression ONLY as `if (x := e) <cmp> …:` (→ `x = e` followed by `if x <cmp> …`; in an `elif` the chain is rendered
+    as a nested `else` block); `odxassert(cond[, msg])` (STRICT MODE: → `if ¬ cond then throw Py.Err.odxError`);
+    `odxraise(msg, KeyError)` (→ `Py.Err.keyError`); `warnings.warn(msg[, Category][, stacklevel=k])` (no effect on the values:
+    rendered as `pure ()`, the assumption "warnings are not turned into exceptions" is listed in the header);
+    `and`/`or` whose LATER operands can raise (→ `(← if a then (do pure b) else pure false)`: the operand is only run when
+    Python evaluates it); `not xs` for a list (→ `xs.isEmpty`)
+  * pure functions, lists of records (W20): `[x for x in xs if c(x)]` (the element is the loop variable, one condition: →
+    `xs.filter`, or `(← Py.filterM …)` when the condition can raise: conditions in order, the first exception propagates);
+    `xs[i]` for a provably non-negative `i` (→ `Py.getItem`, IndexError)
+  * pure functions, records (W20): `x.attr` / `x.m(…)` for an `Optional` record `x` (→ `Py.unwrapAttr`, AttributeError on None);
+    the builtin `isinstance(a, b)` as a spec'd call (`calls[(None, "isinstance")]`: the spec names what class membership means
+    for its abstract records); a Python `str` the model keeps as a Lean `String` (type `PYSTR`: opaque, only `==`/`!=` and
+    spec'd calls); messages of `odxraise` may contain `type(e).__name__` and subscripts — a subscript in a message IS evaluated
+    (`let _ := (← Py.getItem …)` before the `throw`: it can raise first)
+  * several `def`s of one name in a class / module (typing.overload stubs): the LAST one is translated (Python's binding)
   * function headers: decorators `property`, `override`, `staticmethod` only; parameter defaults must be constants (they concern the
     callers; the rendering takes every parameter explicitly); annotations are never consulted
 typing (static, flow-insensitive per variable; the translator infers it)
